@@ -839,7 +839,8 @@ def free_tags(s, n=40):
 
 DEFECTS = ['none', 'numeric-variants', 'unknown-tag', 'unknown-tag-after-mandatory', 'unknown-tag-in-group', 'misplaced-known-tag', 'header-tag-in-body',
            'body-tag-in-trailer', 'trailer-tag-in-body', 'duplicate', 'duplicate-in-header', 'missing-mandatory', 'missing-mandatory-in-group',
-           'element-missing-first-field', 'tag-plus-65536', 'long-tag-number', 'wrong-checksum', 'unknown-tag-last-in-body', 'foreign-tag-in-group']
+           'element-missing-first-field', 'tag-plus-65536', 'long-tag-number', 'wrong-checksum', 'unknown-tag-last-in-body', 'foreign-tag-in-group',
+           'checksum-plus-256']
 
 
 def all_lists(msg):
@@ -1016,6 +1017,15 @@ def apply_defect(rng, s, msg, defect, free):
         sect_req = it.num
         it.num = it.num + 65536 * rng.choice([1, 1, 2, 3])
         return defect + '|' + where, None
+    if defect == 'checksum-plus-256':
+        # a 3-digit text that equals the right checksum only modulo 256 is a wrong checksum
+        def hook256(b):
+            ck = int(b[-4:-1])
+            ks = [k for k in (1, 2, 3) if ck + 256 * k <= 999]
+            if not ks:
+                return b[:-4] + ('%03d' % ((ck + 1) % 256)).encode() + b'\x01'
+            return b[:-4] + ('%03d' % (ck + 256 * rng.choice(ks))).encode() + b'\x01'
+        return defect, hook256
     if defect == 'wrong-checksum':
         def hook(b):
             ck = int(b[-4:-1])
